@@ -207,11 +207,99 @@ fn fault_space(ctx: &mut Ctx, s: &Sample, p: &mut Prng) {
     let _ = Zero::is_zero(&BigUint::zero());
 }
 
+/// The ASN.1 (GM/T 0009 SM2Cipher) form of one reference-made ciphertext: component-level tampering with the DER
+/// lengths kept consistent, and every single-bit flip of the document.
+fn asn1_fault_space(ctx: &mut Ctx, d: &BigUint, sk: &Sm2PrivateKey, msg: &[u8], raw: &[u8], cls: &str) {
+    use crate::refs::der;
+    let c = r2::curve();
+    let (x, y, c3, c2) = (&raw[1..33], &raw[33..65], &raw[65..97], &raw[97..]);
+    let doc = der::sm2cipher_encode(x, y, c3, c2);
+    let dec = |b: &[u8]| guard(|| sk.decrypt_asn1(b, false, model(Order::C1C3C2)));
+    let w = |t: &[u8], what: &str| json!({"class": cls, "tamper": what, "d": hex::encode(r2::b32(d)), "msg": hx(msg), "original_doc": hx(&doc), "tampered_doc": hx(t)});
+    ctx.eval();
+    ctx.class("asn1_valid_decrypts");
+    ctx.class(cls);
+    match dec(&doc) {
+        Outcome::Ret(Ok(m)) if m == msg => {}
+        o => ctx.violation(&format!("decrypt_asn1:valid-document:{}", o.class()), w(&doc, "none")),
+    }
+    // component-level: the document stays a well-formed SM2Cipher, one component differs from the original
+    let cut_first = |v: &[u8]| v[1..].to_vec();
+    let cut_last = |v: &[u8]| v[..v.len() - 1].to_vec();
+    let pre0 = |v: &[u8]| [&[0u8][..], v].concat();
+    let app0 = |v: &[u8]| [v, &[0u8][..]].concat();
+    let mut variants: Vec<(&str, Vec<u8>)> = vec![
+        ("c3_first_byte_dropped", der::sm2cipher_encode(x, y, &cut_first(c3), c2)),
+        ("c3_last_byte_dropped", der::sm2cipher_encode(x, y, &cut_last(c3), c2)),
+        ("c3_zero_prepended", der::sm2cipher_encode(x, y, &pre0(c3), c2)),
+        ("c3_zero_appended", der::sm2cipher_encode(x, y, &app0(c3), c2)),
+        ("c3_empty", der::sm2cipher_encode(x, y, &[], c2)),
+        ("c2_zero_prepended", der::sm2cipher_encode(x, y, c3, &pre0(c2))),
+        ("c2_zero_appended", der::sm2cipher_encode(x, y, c3, &app0(c2))),
+        ("c3_c2_swapped", der::sm2cipher_encode(x, y, c2, c3)),
+        ("x_y_swapped", der::sm2cipher_encode(y, x, c3, c2)),
+    ];
+    if c2.len() > 1 {
+        variants.push(("c2_first_byte_dropped", der::sm2cipher_encode(x, y, c3, &cut_first(c2))));
+        variants.push(("c2_last_byte_dropped", der::sm2cipher_encode(x, y, c3, &cut_last(c2))));
+    }
+    for (nm, coord) in [("x", x), ("y", y)] {
+        let v = r2::from_b(coord);
+        let alias = (&v + &c.p).to_bytes_be();
+        let neg = r2::b32(&((&c.p - &v) % &c.p));
+        let other = |a: &[u8]| if nm == "x" { der::sm2cipher_encode(a, y, c3, c2) } else { der::sm2cipher_encode(x, a, c3, c2) };
+        variants.push((if nm == "x" { "x_plus_p_alias" } else { "y_plus_p_alias" }, other(&alias)));
+        variants.push((if nm == "x" { "x_negated" } else { "y_negated" }, other(&neg)));
+        variants.push((if nm == "x" { "x_shifted_one_byte" } else { "y_shifted_one_byte" }, other(&[&coord[1..], &[0u8][..]].concat())));
+    }
+    for (what, t) in variants {
+        if t == doc {
+            continue;
+        }
+        ctx.eval();
+        ctx.class("asn1_component_tamper");
+        ctx.class(&format!("asn1:{}", what));
+        ctx.distinct("asn1t", &[&t]);
+        match dec(&t) {
+            Outcome::Ret(Err(_)) => {}
+            Outcome::Ret(Ok(m)) => ctx.violation(&format!("decrypt_asn1:{}:{}", what, if m == msg { "accepted-with-original-plaintext" } else { "returned-different-plaintext" }), w(&t, what)),
+            o => ctx.violation(&format!("decrypt_asn1:{}:{}", what, o.class()), w(&t, what)),
+        }
+    }
+    // every single-bit flip of the document. A flip in a tag/length octet may leave a document that only a lenient
+    // (BER) reader accepts with the same four values: that is not a modified C1/C2/C3, so it is only counted. A flip
+    // that a strict reader decodes to DIFFERENT values, or any returned plaintext other than M, is a violation.
+    for bit in 0..doc.len() * 8 {
+        let mut t = doc.clone();
+        t[bit / 8] ^= 0x80 >> (bit % 8);
+        ctx.eval();
+        ctx.class("asn1_bitflip");
+        let strict = der::sm2cipher_decode(&t);
+        let values_differ = match &strict {
+            Some(pz) => r2::from_b(&pz.x) != r2::from_b(x) || r2::from_b(&pz.y) != r2::from_b(y) || pz.c3 != c3 || pz.c2 != c2,
+            None => false,
+        };
+        match dec(&t) {
+            Outcome::Ret(Err(_)) => {}
+            Outcome::Ret(Ok(m)) => {
+                if m != msg {
+                    ctx.violation("decrypt_asn1:bitflip:returned-different-plaintext", w(&t, &format!("bit {}", bit)));
+                } else if values_differ {
+                    ctx.violation("decrypt_asn1:bitflip:accepted-with-original-plaintext", w(&t, &format!("bit {}", bit)));
+                } else {
+                    ctx.class("asn1_bitflip_lenient_reader_same_values");
+                }
+            }
+            o => ctx.violation(&format!("decrypt_asn1:bitflip:{}", o.class()), w(&t, &format!("bit {}", bit))),
+        }
+    }
+}
+
 pub fn run(ctx: &mut Ctx) {
     for (n, ok) in r2::selftest() {
         ctx.selftest(&n, ok);
     }
-    ctx.require(&["valid_decrypts", "bitflip_pc_byte", "bitflip_c1", "bitflip_c2_c3", "truncated_inside_c1", "truncated_inside_hash", "truncated_body", "pc_byte_illegal", "offcurve_y_plus_1", "invalid_curve_point", "coordinate_x_ge_p_alias", "coordinate_x_eq_p", "coordinate_x_eq_p_alias_of_zero", "compressed_nonresidue_x", "c1_other_point", "c1_negated", "c3_zeroed", "extended", "crafted_valid_c1"]);
+    ctx.require(&["valid_decrypts", "bitflip_pc_byte", "bitflip_c1", "bitflip_c2_c3", "truncated_inside_c1", "truncated_inside_hash", "truncated_body", "pc_byte_illegal", "offcurve_y_plus_1", "invalid_curve_point", "coordinate_x_ge_p_alias", "coordinate_x_eq_p", "coordinate_x_eq_p_alias_of_zero", "compressed_nonresidue_x", "c1_other_point", "c1_negated", "c3_zeroed", "extended", "crafted_valid_c1", "asn1_valid_decrypts", "asn1_component_tamper", "asn1_bitflip", "asn1_sample_c3_leading_zero", "asn1_sample_c3_trailing_zero", "asn1_sample_c2_leading_zero"]);
     let c = r2::curve();
     let nsamples = ctx.n(24, 600);
     let mut prng = ctx.prng("samples");
@@ -271,6 +359,43 @@ pub fn run(ctx: &mut Ctx) {
                 let s = Sample { d, sk, msg, ct, lay };
                 fault_space(ctx, &s, &mut q);
             }
+        }
+    }
+    // --- the ASN.1 form: ordinary samples plus samples searched so that C3 begins / ends with a zero byte and C2 begins
+    // with a zero byte (a reader that pads or trims an OCTET STRING like an INTEGER is wrong only for these)
+    {
+        let mut pa = ctx.prng("asn1");
+        let nsamp = ctx.n(16, 200);
+        for i in 0..nsamp {
+            let sub = pa.next();
+            if !ctx.mine(i) {
+                continue;
+            }
+            let mut q = Prng::new(sub, "a1");
+            let d = key_for(&mut q, i % 40);
+            let pk = r2::mul(&d, &r2::g()).unwrap();
+            let Some(sk) = lib_sk(&d) else { continue };
+            let mlen = [1usize, 31, 32, 33, 5, 64][(i % 6) as usize];
+            let msg = q.bytes(mlen);
+            let want = i % 4; // 0: any, 1: C3[0]=0, 2: C3[31]=0, 3: C2[0]=0
+            let mut found = None;
+            for _ in 0..4000 {
+                let k = rand_scalar(&mut q, &c.n);
+                let Some(raw) = r2::encrypt(&pk, &msg, &k, Order::C1C3C2, false) else { continue };
+                let ok = match want {
+                    0 => true,
+                    1 => raw[65] == 0,
+                    2 => raw[96] == 0,
+                    _ => raw[97] == 0,
+                };
+                if ok {
+                    found = Some(raw);
+                    break;
+                }
+            }
+            let Some(raw) = found else { continue };
+            let cls = ["asn1_sample_any", "asn1_sample_c3_leading_zero", "asn1_sample_c3_trailing_zero", "asn1_sample_c2_leading_zero"][want as usize];
+            asn1_fault_space(ctx, &d, &sk, &msg, &raw, cls);
         }
     }
     ctx.exhaustive("every single-bit flip and every truncation length of each sample ciphertext", true);
